@@ -72,13 +72,18 @@ Qed.
 
 Lemma name_candidates_relative : forall mk k, In k (name_candidates mk) -> table_relative k.
 Proof.
-  intros mk k H. unfold name_candidates in H. cbv zeta in H. destruct H as [<-|[<-|[]]].
+  intros mk k H. unfold name_candidates in H. cbv zeta in H.
+  destruct (startswith "data/" _) eqn:D; cbn [orb] in H.
+  { destruct H as [<-|[]]. left. exact D. }
+  destruct (startswith "metadata/" _) eqn:M.
+  { destruct H as [<-|[]]. right. exact M. }
+  destruct H as [<-|[<-|[]]].
   - left. apply startswith_app.
   - right. change "metadata/manifests/" with ("metadata/" ++ "manifests/"). rewrite append_assoc. apply startswith_app.
 Qed.
 
 (* the regenerated fallback of _marker_targets covers every path the marker's name can denote *)
-Lemma marker_fallback_covers : forall mk, marker_fallback (basename mk) = name_candidates mk.
+Lemma marker_fallback_covers : forall mk, marker_fallback mk (basename mk) = name_candidates mk.
 Proof. intro mk. reflexivity. Qed.
 
 (* the legacy JSON fallback of read_manifest_list_file / read_manifest_file subscripts the section it iterates (`DOC[key]`):
